@@ -364,7 +364,9 @@ theorem share_ok_only_for_holder (lock : Nat) (h₁ h₂ : List Ev) (m rid part 
 /-- **At Close unacknowledged records are released.** When `Close` returns, every record the member was handed
 without a final decision is covered by a final batch the member sent after it was handed the record (the release, or
 an older decision for the same offset that the per-offset dedupe put in its place), or the
-member's callback reported an error for the partition while closing. -/
+member's callback reported an error for the partition while closing. (`openRecs` drops a record when the member
+renewed it through the API and the callback then reported an acknowledge error for its partition: the broker
+refused the member's hold on the partition's records, e.g. INVALID_RECORD_STATE after a leader move.) -/
 theorem share_close_releases (lock : Nat) (h₁ h₂ : List Ev) (m : Nat) (s : St)
     (hacc : Model.Share.run (Model.Share.init lock) (h₁ ++ Ev.closed m :: h₂) = some s) :
     ∀ r ∈ (stateAt lock h₁).openRecs, r.1 = m →
